@@ -16,6 +16,7 @@ EXPLANATION = (
     "reports CapacityError.  Not decided: the integer bijection on all 2^32 values, shortest-form canonicity and agreement with "
     "doc/int.md -- a data-dependent loop whose result is a number is outside a path-insensitive analysis."
 )
+EXPLANATION += ('  Round 4: R2 recognises errors produced by `?` (from_residual) and by `return self.error()`.')
 ASSUMPTIONS = ["std / arrayvec functions outside the precondition table do not panic", "reviewed table lines confirmed by reading the code"]
 TABLES = ["packer", "buffer", "common", "looptable", "postfix"]
 P = "libtw2_packer::"
